@@ -11,7 +11,7 @@ use crate::subject;
 use serde_json::{json, Value};
 use xml_schema_generator::{Element, Options, SortBy};
 
-const DERIVES: &[&str] = &["Serialize, Deserialize", "", "Debug", "Clone, Debug, PartialEq, serde::Deserialize", "  spaced ,Odd  "];
+const DERIVES: &[&str] = &["Serialize, Deserialize", "", "Debug", "Clone, Debug, PartialEq, serde::Deserialize", "  spaced ,Odd  ", "Debug, Clone, Debug, PartialEq", "Debug,Clone", " "];
 const PREFIXES: &[&str] = &["@", "", "attr_", "@@"];
 const TEXTS: &[&str] = &["$text", "$value", "text", "#text"];
 
@@ -230,7 +230,7 @@ pub fn run(ctx: &Ctx) {
     ctx.set("named_trees", json!({"names": names.iter().map(|n| n.name).collect::<Vec<_>>(), "subsets": subs.len(), "subsets_done": res2.processed, "nodes_max": params.max_nodes, "decorated_max": params.max_decorated}));
     ctx.set(
         "rule",
-        json!("for every document: 5 derive strings x 4 attribute prefixes x 4 text identifiers x 2 sort options, plus the two preset constructors and their derive() builder; each rendering is compared with the rendering under the quick-xml preset with the same sort: same structs, field identifiers, types and order; derive line verbatim on every struct or absent when empty; attribute fields bound to prefix + local name, children to their local name, text to the text identifier; no rename equal to the identifier. evaluations = renderings compared, distinct_nontrivial = distinct documents (trees) each rendered under all tuples"),
+        json!("for every document: 8 derive strings (incl. a repeated trait, one without spaces and a blank one) x 4 attribute prefixes x 4 text identifiers x 2 sort options, plus the two preset constructors and their derive() builder; each rendering is compared with the rendering under the quick-xml preset with the same sort: same structs, field identifiers, types and order; derive line verbatim on every struct or absent when empty; attribute fields bound to prefix + local name, children to their local name, text to the text identifier; no rename equal to the identifier. evaluations = renderings compared, distinct_nontrivial = distinct documents (trees) each rendered under all tuples"),
     );
 }
 
